@@ -110,6 +110,9 @@ def _strategy(draw):
     # stamps: naive on aware grid where interval data exist
     if g["tz"] is not None and draw(st.booleans()):
         a["naive"] = True
+    if draw(st.integers(0, 5)) == 0:
+        # numpy scalars where the set-up accepts them (window as numpy dates, storage parameters as numpy numbers)
+        a["np_scalars"] = True
     wrap = draw(st.sampled_from(["asset", "portfolio", "portfolio_own_grid"]))
     assets = [a]
     if wrap != "asset":
@@ -190,7 +193,8 @@ def check(spec):
     a = spec["assets"][0]
     out.label("kind:" + spec["kind"], "wrap:" + spec["wrap"], "after_setup" if spec["after_setup"] else "before_setup",
               "naive_on_aware" if a.get("naive") else None, "tz:" + str(spec["grid"]["tz"]),
-              "stamps:zoneinfo" if spec.get("zoneinfo") and not a.get("naive") else None)
+              "stamps:zoneinfo" if spec.get("zoneinfo") and not a.get("naive") else None,
+              "numpy_scalars" if a.get("np_scalars") else None)
     if a.get("naive") and ambiguous_stamps(spec):
         return out.drop("ambiguous_wall_time")
     obj = make(spec)
